@@ -57,7 +57,7 @@ def check_all(ctx, facts):
     prov = Prov(facts)
     with open(os.path.join(CORPUS, "shapes.json")) as fh:
         shapes = json.load(fh)
-    ctx.floor("R1", "trace_shapes", len(shapes), 39, "corpus shapes")
+    ctx.floor("R1", "trace_shapes", len(shapes), 58, "corpus shapes")
     combos = {(s["template"], s["name_kind"], tuple(p[0] for p in s["props"])) for s in shapes}
     ctx.analysed.setdefault("X", {})["template_x_name_x_props_combinations"] = len(combos)
     n_checked = 0
@@ -184,14 +184,14 @@ def check_all(ctx, facts):
         # ---------------- R4 name
         if name_op is not None:
             nk = sh["name_kind"]
-            if nk in ("short", "named"):
+            if nk in ("short", "named", "braces"):
                 # enter_on_poll takes impl Into<Cow>: the literal may pass through Into::into
                 lit = str_const(name_fn, name_op)
                 if lit is None:
                     src = prov.of_operand(name_fn, name_op)
                     lits = [str(o.key)[1:-1] for o in src if o.kind == "const" and str(o.key).startswith('"')]
                     lit = lits[0] if len(lits) == 1 else None
-                ctx.check(lit == sh["name"], "R4", tp, tf.span, "the span name is %s" % ("the bare identifier" if nk == "short" else "the configured name"),
+                ctx.check(lit == sh["name"], "R4", tp, tf.span, "the span name is %s" % ("the bare identifier" if nk == "short" else "the configured name, verbatim (never formatted)"),
                           repr(lit), "name constant %r, expected %r" % (lit, sh["name"]), extra="name")
             else:
                 src = prov.of_operand(name_fn, name_op)
@@ -256,7 +256,7 @@ def check_all(ctx, facts):
                       "the with_properties closure builds the configured keys in order; literal values are constants ({{ }} unescaped), "
                       "formatted values are format!(..) over the function's arguments", detail,
                       "%s (expected %s)" % (detail, want), extra="props")
-    ctx.floor("R1", "trace_shapes", n_checked, 39, "corpus shapes found in the expanded program")
+    ctx.floor("R1", "trace_shapes", n_checked, 58, "corpus shapes found in the expanded program")
 
 
 def macro_inventory(ctx, facts_e):
